@@ -195,6 +195,7 @@ class C12(Check):
         out += [('reconf', i) for i in range(len(RECONF))]
         out.append(('long',))
         out.append(('cli',))
+        out.append(('collide',))
         return out
 
     def run_reconf(self, first, acc):
@@ -272,7 +273,38 @@ class C12(Check):
                         acc.violation('cli-log-filter-wrong-subsequence', {'kind': 'cli', 'args': args, 'logs': list(logs)},
                                       {'exit': code, 'error': repr(exc)[:200], 'got_n': len(lines), 'exp_n': len(el)})
 
+    def run_collide(self, acc):
+        """(a) class numbers and subclass numbers live in different fields: a subclass filter below 0x100 (class 0) or a class
+        entry above 0xff must not match through the other field; (b) growing ONE object's filter list in place must not
+        change another object's listing."""
+        ids = [0x00040004, 0x04000004, 0x040c0004, 0x00000004, 0x0c040004, 0x04040404]
+        recs = [B.rec(100 + i, (i, 0, 0, 0), 1, e) for i, e in enumerate(ids)]
+        blob = B.v2([(1, 10, 'A')], 0, recs)
+        for C in ([], [4], [0], [0x40c], [0x404], [4, 0x40c]):
+            for S in ([], [4], [0x400], [0x40c], [0], [0x404]):
+                got = [obs_event(e) for e in run_facade(blob, None, C, S, None, 'kevents')]
+                exp = [ref_decode(r) for r in recs if not (C or S) or (ref_decode(r)[5] >> 24) in C or (ref_decode(r)[5] >> 16) in S]
+                acc.case(nontrivial=bool(C or S), transitions=1, state=h64(('collide', tuple(C), tuple(S))))
+                if got != exp:
+                    acc.violation('event-filter-wrong-subsequence:class-subclass-number-collision', {'kind': 'collide', 'classes': C, 'subclasses': S},
+                                  {'got': [hex(g[5]) for g in got], 'expected': [hex(x[5]) for x in exp]})
+        for grow in ('class-append', 'subclass-append', 'class-iadd'):
+            a, b = PyKdebugParser(), PyKdebugParser()
+            if grow == 'class-append':
+                a.filter_class.append(0xff)
+            elif grow == 'subclass-append':
+                a.filter_subclass.append(0xffff)
+            else:
+                a.filter_class += [0xfe]
+            got = [obs_event(e) for e in b.kevents(io.BytesIO(blob))]
+            acc.case(nontrivial=True, transitions=1, state=h64(('grow', grow)))
+            if got != [ref_decode(r) for r in recs] or b.filter_class != [] or b.filter_subclass != []:
+                acc.violation('filter-settings-shared-between-parser-objects', {'kind': 'collide', 'grow': grow},
+                              {'other_object_filter_class': repr(b.filter_class), 'got_n': len(got)})
+
     def run_shard(self, desc, acc):
+        if desc[0] == 'collide':
+            return self.run_collide(acc)
         if desc[0] == 'cli':
             return self.run_cli(acc)
         if desc[0] == 'long':
@@ -316,6 +348,11 @@ class C12(Check):
             acc.sample(case)
 
     def replay(self, case):
+        if case['kind'] == 'collide':
+            from mc.run import Acc
+            acc = Acc()
+            self.run_collide(acc)
+            return [(sig, v['cases'][0][1]) for sig, v in acc.violations.items()]
         if case['kind'] == 'cli':
             from mc.run import Acc
             acc = Acc()
